@@ -4,6 +4,7 @@ from __future__ import annotations
 from . import families as F
 from .c01_sound import _v, build_game, read_game
 from . import c01_sound
+from . import histories as H
 
 ID = "C02"
 HEAVY = False
@@ -31,9 +32,9 @@ def bounds_text(tier):
 def tasks(tier, seed):
     out = []
 
-    def add(n, K, comp, wit=True):
-        out.append({"key": f"n{n}/{comp}/K={','.join(map(str, K))}/w{int(wit)}", "n": n, "K": K, "computer": comp,
-                    "witness": wit, "history": "direct"})
+    def add(n, K, comp, wit=True, hist="stale"):
+        out.append({"key": f"n{n}/{comp}/K={','.join(map(str, K))}/w{int(wit)}" + ("" if hist == "stale" else "/" + hist), "n": n, "K": K,
+                    "computer": comp, "witness": wit, "history": hist})
     for comp in c01_sound.COMPUTERS:
         add(3, [], comp)
     fam3, _ = F.family(3, tier, seed)
@@ -47,7 +48,18 @@ def tasks(tier, seed):
     unc = fam4 if tier == "thorough" else F.sample(fam4, 128, seed, "c02unc")
     for K in unc:
         add(4, K, "superadditive")
+    # seeded operation histories on one object (state kept outside the value table, see harness/histories.py): closed form only
+    for comp in c01_sound.COMPUTERS:
+        for K in fam3:
+            for j in range(2 if tier == "quick" else 5):
+                add(3, K, comp, wit=False, hist=f"ops{j}")
+        for K in F.sample([k for k in fam4 if len(k) < len(F.extras(4))], 48 if tier == "quick" else 256, seed, "c02ops"):
+            add(4, K, comp, wit=False, hist="ops0")
+            if tier == "thorough":
+                add(4, K, comp, wit=False, hist="ops1")
     fam5, _ = F.family(5, tier, seed)
+    for K in F.sample(fam5, 6 if tier == "quick" else 40, seed, "c02ops5"):
+        add(5, K, "superadditive_cached", wit=False, hist="ops0")
     if tier == "thorough":
         for K in fam5:
             add(5, K, "superadditive_cached", wit=False)
@@ -69,13 +81,17 @@ def setup(params, inp, lg):
         if S not in known:
             inp.real(f"staleL{S}")
             inp.real(f"staleU{S}")
+    if str(params.get("history", "")).startswith("ops"):
+        for nm in H.stale_names(H.plan(n, params["K"], params["history"])):
+            inp.real(nm)
     return F.sa_constraints(v, n, lg)
 
 
 def scenario(pk, params, inp):
     v = _v(params, inp)
     # "the same inputs as C01": the pre-state of every unknown row is arbitrary (free stale variables)
-    g, known, unknown = build_game(pk, dict(params, history="stale"), inp, v)
+    hist = params.get("history", "stale")
+    g, known, unknown = build_game(pk, dict(params, history=hist if str(hist).startswith("ops") else "stale"), inp, v)
     g.compute_bounds()
     return read_game(pk, g, params["n"])
 
